@@ -336,4 +336,27 @@ def standard_grid(seed, thorough=False):
     for j in range(2 if not thorough else 6):
         cfgs.append({"N": 2, "W": 1 + j % 2, "K": 6, "beta": [3.0, 8.0][j % 2], "lam": 0.11, "limit": 2, "m": 2, "biased": False, "eps": 0,
                      "joint": False, "lengths": [80], "data_seed": 3000 + j + seed, "rng_seed": 60 + j, "regimes": 2})
+    # unusual but legal forms of every input, combined: per-pair switching costs that are not all equal, matrix-valued sparsity
+    # weights that are not symmetric, series stored as integers / single precision, sensors in very different units, more
+    # clusters than regimes (clusters that end unused, not only the last one), window sizes divisible by 4, worker processes,
+    # covariance floors below the BIC threshold
+    div = [
+        dict(N=2, W=4, K=3, beta=3.0, beta_vec="ramp", lam=0.11, limit=4, m=2, biased=False, eps=0, joint=False, lengths=[90], regimes=3),
+        dict(N=1, W=8, K=2, beta=2.0, beta_vec="random", lam=0.05, limit=3, m=2, biased=True, eps=0, joint=False, lengths=[100], regimes=2),
+        dict(N=2, W=2, K=2, beta=4.0, lam_matrix="asym", limit=3, m=2, biased=False, eps=0, joint=False, lengths=[70], regimes=2),
+        dict(N=3, W=1, K=3, beta=1.0, lam_matrix="upper", limit=30, m=1, biased=True, eps=1e-9, joint=False, lengths=[80], regimes=3),
+        dict(N=2, W=2, K=3, beta=2.0, lam=0.11, limit=30, m=2, biased=False, eps=0, joint=False, lengths=[90], regimes=3, data_dtype="int64"),
+        dict(N=2, W=3, K=2, beta=5.0, lam=0.11, limit=3, m=2, biased=False, eps=0, joint=True, lengths=[40, 31], regimes=2, data_dtype="float32"),
+        dict(N=3, W=1, K=2, beta=2.0, lam=0.11, limit=4, m=2, biased=False, eps=0, joint=False, lengths=[90], regimes=2, col_scales=[1e-2, 1.0, 1e4]),
+        dict(N=1, W=2, K=4, beta=6.0, lam=0.11, limit=30, m=1, biased=False, eps=0, joint=False, lengths=[120], regimes=2),
+        dict(N=2, W=1, K=5, beta=15.0, lam=0.11, limit=30, m=2, biased=False, eps=1e-5, joint=False, lengths=[110], regimes=2),
+        dict(N=1, W=4, K=2, beta=2.0, lam=0.11, limit=3, m=2, biased=False, eps=0, joint=True, lengths=[30, 50, 40], regimes=2, mp=True, procs=2),
+        dict(N=2, W=12, K=2, beta=1.0, beta_vec="const", lam=0.3, limit=2, m=2, biased=False, eps=0, joint=False, lengths=[64], regimes=2),
+        dict(N=1, W=1, K=3, beta=0.0, lam=0.0, limit=30, m=1, biased=True, eps=0, joint=False, lengths=[75], regimes=3, offset=1e4),
+    ]
+    for j, c in enumerate(div if thorough else div[:: 1]):
+        c = dict(c)
+        c["data_seed"] = 5000 + j + seed
+        c["rng_seed"] = 70 + j
+        cfgs.append(c)
     return cfgs
